@@ -180,6 +180,9 @@ impl Prop for C01 {
     fn enumerate(&self, _tier: Tier) -> Vec<HistCase> {
         let mut v = gen::enumerate_histories(1);
         v.extend(gen::enumerate_histories(0));
+        for huge in [1u8, 2] {
+            v.push(HistCase { universe: 6, spec: 0, wmode: 1, ctor: None, ops: vec![], huge });
+        }
         v
     }
     fn strategy(&self, tier: Tier) -> BoxedStrategy<HistCase> {
@@ -193,6 +196,36 @@ impl Prop for C01 {
         tier.pick(200_000, 2_000_000)
     }
     fn check(&self, case: &HistCase) -> Outcome {
+        if case.huge > 0 {
+            // the fixed huge-graph cases (more than 2^16 nodes), sampled reads and linear oracles
+            let mut out = Outcome::new();
+            let gc = &crate::huge::huge_cases()[(case.huge as usize - 1) % 2];
+            let ng = gc.norm();
+            let mut g = ng.build();
+            crate::huge::core_mutations(&mut g, &ng, &mut out);
+            if out.failures.is_empty() {
+                // the reads still describe the graph after the mutations (sampled)
+                let mut ng2 = ng.clone();
+                let n = ng2.n;
+                if !ng2.edges.iter().any(|(i, j, _)| (*i == n - 1 && *j == n - 300) || (!ng2.directed && *i == n - 300 && *j == n - 1)) {
+                    ng2.edges.push((n - 1, n - 300, 2.5));
+                }
+                let p = 65_537usize.min(n - 1);
+                let mut o2 = Outcome::new();
+                crate::huge::core_reads(&g, &ng2, &mut o2);
+                out.api_calls += o2.api_calls;
+                for f in o2.failures {
+                    // (the re-added node carries the new attribute)
+                    if f.sig.starts_with("get_node/eq_model") && f.msg.contains(&format!("position {}", p)) {
+                        continue;
+                    }
+                    out.fail(format!("after_mutations/{}", f.sig), f.msg);
+                }
+            }
+            out.class("huge_graph_66003_nodes");
+            out.nontrivial = true;
+            return out;
+        }
         let mut out = Outcome::new();
         let Some((mut m, mut g)) = run_ctor(case, &mut out) else {
             return out;
